@@ -348,6 +348,15 @@ def run_case(case, tier):
         for k, v in cfg["charge"].items():
             if p.charge.get(k) != v:
                 viol.append({"cls": "scalar-wrong", "msg": "charge %s: %r vs file %r" % (k, p.charge.get(k), v)})
+        from ..oracles import chem
+        for k, v in cfg["charge"].items():
+            want = chem.class_sign(k, k, cfg["acid_list"], cfg["base_list"])
+            counts["scalar_checks"] = counts.get("scalar_checks", 0) + 1
+            if want is not None and v * want <= 0:
+                viol.append({"cls": "acid-base-charge-sign", "msg": "charge %s %+g, but %s is listed as %s" % (k, v, k, "an acid" if want < 0 else "a base")})
+        for k, v in cfg["ions"].items():
+            if v * chem.ion_sign(k) <= 0:
+                viol.append({"cls": "ion-charge-sign-unchemical", "msg": "ions %s %+g" % (k, v)})
         for k, v in cfg["ions"].items():
             if p.ions.get(k) != v:
                 viol.append({"cls": "scalar-wrong", "msg": "ions %s: %r vs file %r" % (k, p.ions.get(k), v)})
